@@ -185,8 +185,8 @@ PLAIN = {
     "int(*)(int(*)(int))": ["int(*)(int(*)(int))", "int(*)(int(int))"],
 }
 INLINE_ONLY = {"int[2]": ["int[1+1]"], "int[3]": ["int[2+1]"]}
-CDEF = ("typedef int myint_t; typedef int *ip_t; typedef int arr2_t[2]; typedef int fn_t(int); "
-        "int abs(int); extern int (*c27_g)(int, ...);")
+CDEF = "typedef int myint_t; typedef int *ip_t; typedef int arr2_t[2]; typedef int fn_t(int); int abs(int);"
+MODULE_TYPENAMES = ["myint_t", "ip_t", "arr2_t", "fn_t *"]
 TYPEDEF = {
     "int": ["myint_t", "const myint_t"],
     "int*": ["ip_t", "myint_t *", "ip_t const"],
